@@ -3,6 +3,7 @@ From Coq Require Import List Bool NArith.
 Import ListNotations.
 From JS Require Import Model.Base Model.Shape Model.Sem Model.Subset Model.Infer Model.Api
   Proofs.SubsetFacts Proofs.SupersetFacts Proofs.SupersetFragment.
+From JS Require Import Model.Lexer Model.Walk Model.TextApi Model.JsonRef Proofs.TextComplete Proofs.TextLift.
 
 Theorem C03_self : forall s, wf s = true -> is_subset s s = true.
 Proof. exact subset_refl. Qed.
@@ -38,6 +39,14 @@ Proof.
   exists [JBool; JNull; JNum]. eexists. exists JNull. vm_compute. repeat split. right. left. reflexivity.
 Qed.
 Print Assumptions C03_kf2_refuted.
+
+(* on TEXTS: a OneOf-free shape inferred from source texts accepts every one of them, both forms *)
+Theorem C03_text_oneof_free : forall srcs ds sh, Forall2 text_of srcs ds ->
+  from_sources_m cfg_now srcs = Ok sh -> oneof_free sh = true ->
+  forall s d, text_of s d -> In d ds ->
+  is_superset_m cfg_now sh s = Ok true /\ is_superset_checked_m cfg_now sh s = Ok true.
+Proof. exact text_sources_accept_free. Qed.
+Print Assumptions C03_text_oneof_free.
 
 Example C03_nonvacuous :
   let d := JObj [([97%N], JArr [JNum; JStr]); ([98%N], JArr [])] in
